@@ -195,8 +195,12 @@ def bmLine (bm : BM) (line : String) : BM :=
                       mode := parseModeA ((kv fs "mode").getD "ha"), wordSize := num "ws",
                       ops := commaList ((kv fs "ops").getD "") }
     let sc := (kv fs "sc").getD "-"
-    { bm with cps := bm.cps ++ [{ arch := a, prog := [], shared := num "shared" == 1, mwDecl := num "mw",
-                                  sharedC := if sc = "-" then [] else sc.splitOn ";" }] }
+    let scl := if sc = "-" then [] else sc.splitOn ";"
+    -- Arch.Shared_num counts the constraint entries "<kind>:…" per kind
+    let kinds := (scl.filterMap fun c => match c.splitOn ":" with | k :: _ :: _ => some k | _ => none)
+    let counts := kinds.eraseDups.map fun k => (k, kinds.count k)
+    { bm with cps := bm.cps ++ [{ arch := { a with shared := counts }, prog := [], shared := num "shared" == 1, mwDecl := num "mw",
+                                  sharedC := scl }] }
   | ["W", i, w] =>
     { bm with cps := bm.cps.modify (nat! i) fun cp => { cp with prog := cp.prog ++ [ofString01 w] } }
   | ["D", i, w] =>
